@@ -18,7 +18,7 @@ func TestVF(t *testing.T) { vrun.Main(t) }
 func init() { vrun.Register("headers/range", scenarioRange) }
 
 type rangeParams struct {
-	MaxLen int   `json:"max_len"`
+	MaxLen int     `json:"max_len"`
 	Sizes  []int64 `json:"sizes"`
 }
 
